@@ -324,6 +324,8 @@ def _enclosing_decl(path: Path, line: int) -> str:
     for i in range(min(line, len(lines)) - 1, -1, -1):
         m = re.match(r"\s*(?:private\s+)?(?:theorem|def|lemma|example)\s+(\S+)", lines[i])
         if m:
+            if re.match(r"\s*example\b", lines[i]):  # an evaluated example (it has no name): name it by its line
+                return (ns + "." if ns else "") + f"example@line{i + 1}"
             return (ns + "." if ns else "") + m.group(1)
     return "?"
 
